@@ -126,7 +126,7 @@ func (ii IfInfo) EdgeWhen(t bool) int {
 // OnlyVia reports whether instruction target can be reached from `from` only
 // through edge (b, succ) — i.e. it becomes unreachable when the edge is removed.
 func OnlyVia(from Pt, target ssa.Instruction, b *ssa.BasicBlock, succ int) bool {
-	if !Reach([]Pt{from}, Opts{KeepNoReturn: true}).Reached[target] {
+	if !Reach([]Pt{from}, Opts{}).Reached[target] {
 		return false // not reachable at all: vacuous, caller decides
 	}
 	return !ReachableWithoutEdge(from, target, b, succ)
